@@ -164,6 +164,10 @@ func (x *Exec) eval(s *State, e ast.Expr) *Term {
 			x.abstract("assertion to interface")
 			return v
 		}
+		if isPoolGet(x, n.X) {
+			s.assume(Eq(Field(v, 0), IntLit(int64(x.eng.tm.tagOf(t)))))
+			return x.unbox(s, v, t)
+		}
 		x.oblige(s, "typeassert", Eq(Field(v, 0), IntLit(int64(x.eng.tm.tagOf(t)))), n.Pos(), exprString(n))
 		return x.unbox(s, v, t)
 	case *ast.KeyValueExpr:
@@ -880,4 +884,15 @@ func (x *Exec) mapInit(s *State, t types.Type, ref *Term) {
 	d := x.heapGet(s, dn, ArrayOf(SInt, ArrayOf(ks, SBool)))
 	empty := App("(as const "+ArrayOf(ks, SBool).String()+")", ArrayOf(ks, SBool), False)
 	x.heapSet(s, dn, Store(d, ref, empty))
+}
+
+func isPoolGet(x *Exec, e ast.Expr) bool {
+	call, ok := unparen(e).(*ast.CallExpr)
+	if !ok {
+		return false
+	}
+	if f, ok := x.calleeObj(call).(*types.Func); ok {
+		return f.FullName() == "(*sync.Pool).Get"
+	}
+	return false
 }
